@@ -288,6 +288,9 @@ func (p *queueProcessor) checkIfAllowed(req *Request) (bool, error) {
 	}
 
 	quota, err := p.metaData.Resources.GetQuota(p.quotaID, req.GetAPIStream().GetID())
+	if ferr := verifhook.Fault("q.fault.get_quota"); ferr != nil {
+		return false, ferr
+	}
 	if err != nil {
 		return false, err
 	}
@@ -315,6 +318,9 @@ func (p *queueProcessor) prepareQuotaForNextAttempt(req *Request) error {
 	}
 
 	quota, err := p.metaData.Resources.GetQuota(p.quotaID, req.GetAPIStream().GetID())
+	if ferr := verifhook.Fault("q.fault.get_quota"); ferr != nil {
+		return ferr
+	}
 	if err != nil {
 		return err
 	}
@@ -411,6 +417,7 @@ func (p *queueProcessor) enqueueIfSlotAvailable(req *Request) bool {
 			Msg("Slot not available anymore, dropping request")
 		return false
 	}
+	verifhook.Point("q.mid_enroll", "id", req.GetID())
 
 	p.logger.Trace().Str("requestID", req.GetID()).Msg("Slot available, enqueuing")
 	if err := p.queue.Enqueue(req.GetID(), req.GetPriority()); err != nil {
